@@ -243,6 +243,11 @@ func runC10(c *CaseCtx) (res CaseResult) {
 		if c.Verbose {
 			fmt.Printf("convert: class=%s err=%s events=%s\n", o1.Class, firstLine(errStr(o1.Err)), eventsStr(o1.Events))
 		}
+		if o1.Touched != "" {
+			// Convert(T, all[:k]...) followed by Convert(T2, all...) is no
+			// longer a conversion "with the same args" the caller wrote
+			res.violate("C10", "caller-option-slice-written", "Convert wrote into the caller's option slice: "+o1.Touched, det)
+		}
 		if o1.Class == ClsPanic {
 			res.violate("C06", "panic/convert-"+crashKey(o1.Panic), "Convert panicked: "+o1.Panic, det)
 			continue
